@@ -20,6 +20,8 @@ CONSTANTS MaxCalls,      \* length bound of call sequences
           Deviations     \* {} = design as intended; {"discIgnoresOverride"} = as implemented
 
 \* ------------------------------------------------------------------ the project
+\* (properties are listed in sorted key order: that is the order in which the emitted ObjectRuntype visits them, and the
+\* order matters for what is already stored when a print throws)
 O1(k1, t1) == Obj(<<Prop(k1, t1, FALSE)>>, <<>>)
 O2(k1, t1, k2, t2) == Obj(<<Prop(k1, t1, FALSE), Prop(k2, t2, FALSE)>>, <<>>)
 O2o(k1, t1, k2, t2) == Obj(<<Prop(k1, t1, FALSE), Prop(k2, t2, TRUE)>>, <<>>)
@@ -31,13 +33,18 @@ Env == <<
   [n |-> "VA",     kind |-> "type", ty |-> O2("k", LS("x"), "x", TNumber)],
   [n |-> "VB",     kind |-> "type", ty |-> O2("k", LS("y"), "y", TString)],
   [n |-> "U",      kind |-> "type", ty |-> Uni(<<Ref("VA"), Ref("VB")>>)],
-  [n |-> "Holder", kind |-> "type", ty |-> O2("va", Ref("VA"), "u", Ref("U"))],
+  [n |-> "Holder", kind |-> "type", ty |-> O2("u", Ref("U"), "va", Ref("VA"))],
   [n |-> "Inline", kind |-> "type", ty |-> Uni(<<O2("k", LS("p"), "p", TNumber), O2("k", LS("q"), "q", TString)>>)],
   [n |-> "VAo",    kind |-> "type", ty |-> O2("k", LS("x"), "x", TString)],
   [n |-> "Bad",    kind |-> "type", ty |-> O1("d", Prim("Date"))],
-  [n |-> "P2",     kind |-> "type", ty |-> O2("x", Ref("Bad"), "y", TString)]
+  [n |-> "P2",     kind |-> "type", ty |-> O2("x", Ref("Bad"), "y", TString)],
+  \* discriminated unions with a variant that cannot be printed (named and inline), first met through the union
+  [n |-> "VD",     kind |-> "type", ty |-> O2("k", LS("d"), "d", Prim("Date"))],
+  [n |-> "UD",     kind |-> "type", ty |-> Uni(<<Ref("VB"), Ref("VD")>>)],
+  [n |-> "InlineD", kind |-> "type", ty |-> Uni(<<O2("k", LS("p"), "p", TNumber), O2("k", LS("dd"), "d", Prim("Date"))>>)],
+  [n |-> "HD",     kind |-> "type", ty |-> O2("i", Ref("InlineD"), "ud", Ref("UD"))]
 >>
-Parsers == {"Tree", "A", "B", "U", "Holder", "Inline", "VA", "Bad", "P2"}
+Parsers == {"Tree", "A", "B", "U", "Holder", "Inline", "VA", "Bad", "P2", "VD", "UD", "InlineD", "HD", "VB"}
 \* configuration with namedTypeSchemaOverrides: VA is printed as VAo
 Overrides == [VA |-> "VAo"]
 Names == {Env[i].n : i \in DOMAIN Env}
@@ -54,6 +61,12 @@ IsDisc(T) ==
              LET p == Resolve(T.ms[i]).ps[j] IN p.key = key /\ ~p.opt /\ p.ty.t = "lit" /\ p.ty.v.k = "str"
        /\ Cardinality({ LET o == Resolve(T.ms[i]) IN o.ps[CHOOSE j \in DOMAIN o.ps : o.ps[j].key = key].ty
                         : i \in DOMAIN T.ms }) > 1
+
+\* sorted order of the discriminator values used in the project (TLC cannot compare strings)
+LitOrder == <<"a", "b", "d", "dd", "p", "q", "x", "y">>
+DiscRank(m) == LET o == Resolve(m)
+                   lits == {o.ps[j].ty.v.s : j \in {j \in DOMAIN o.ps : o.ps[j].key \in {"k", "kind"} /\ o.ps[j].ty.t = "lit"}}
+               IN CHOOSE i \in DOMAIN LitOrder : LitOrder[i] \in lits
 
 \* ------------------------------------------------------------------ the traversal
 St(col, prog, err) == [col |-> col, prog |-> prog, err |-> err]
@@ -82,7 +95,8 @@ Visit(T, st, useOv, ovs) ==
          IF IsDisc(T)
          THEN \* getSchemaVariantRefs: every variant becomes a definition; named variants go through
               \* ensureContextualDefinition, which does not consult the overrides (deviation)
-              VisitSeq(T.ms, 1, st, "discIgnoresOverride" \notin Deviations, ovs)
+              \* in the order of their discriminator values (the emitted mapping object is keyed by them, sorted)
+              VisitSeq(SortSeq(T.ms, LAMBDA a, b : DiscRank(a) < DiscRank(b)), 1, st, "discIgnoresOverride" \notin Deviations, ovs)
          ELSE VisitSeq(T.ms, 1, st, TRUE, ovs)
     [] T.t = "inter" -> VisitSeq(T.ms, 1, st, TRUE, ovs)
     [] T.t = "arr"   -> Visit(T.e, st, TRUE, ovs)
